@@ -86,7 +86,9 @@ func genRpcPlan(g *simrt.Rng, tier string) *RpcPlan {
 		c.Code = rpcCodes[g.IntN(len(rpcCodes))]
 		c.Msg = rpcMsgs[g.IntN(len(rpcMsgs))]
 		if c.Code == "ok" {
-			c.Msg = ""
+			if g.Bool(0.7) {
+				c.Msg = "" // most handlers succeed with the plain OK, some add a message to it
+			}
 			if g.Bool(0.8) {
 				c.ResultSize = sizeAlphabet(g, w, 3000)
 			}
@@ -304,7 +306,7 @@ func (r *rpcRun) handle(ctx rpc.Context, ch rpc.ServerChannel) (ref.R[[]byte], s
 		return nil, stOut
 	}
 	if c.ResultSize == 0 {
-		return nil, status.OK
+		return nil, stOut
 	}
 	buf := alloc.AcquireBuffer()
 	w := spec.NewValueWriterBuffer(buf)
@@ -313,7 +315,7 @@ func (r *rpcRun) handle(ctx rpc.Context, ch rpc.ServerChannel) (ref.R[[]byte], s
 	if err != nil {
 		panic(err)
 	}
-	return ref.NewFreer(b, buf), status.OK
+	return ref.NewFreer(b, buf), stOut
 }
 
 // checkResult compares what the caller got with what the handler produced for that call.
@@ -328,6 +330,9 @@ func (r *rpcRun) checkResult(id int, val spec.Value, st status.Status) {
 		}
 		if c.Panic || c.Code != "ok" || c.Skip {
 			r.fail("C04-false-ok", "call %d returned OK but its handler produced %q (panic=%v)", id, c.Code, c.Panic)
+		}
+		if st.Message != c.Msg && !c.Probe {
+			r.fail("C04-status", "call %d: handler returned code=\"ok\" message=%q, caller received code=\"ok\" message=%q", id, c.Msg, st.Message)
 		}
 		if c.ResultSize == 0 {
 			if len(val) != 0 {
